@@ -154,6 +154,9 @@ Isolation    == hist = <<>> \/ "mutation-leaks" \notin Fails(Last)
 \* stronger than the per-event statement: a deep copy reaches no cell of ANY older node
 DeepFresh == \A k \in 1..Len(nodes) : nodes[k].act = "deep" =>
                 \A j \in 1..(k - 1) : CellsOf(nodes[k]) \cap CellsOf(nodes[j]) = {}
+\* witness for the negative control of the model (DeepMode = "keepleaves"): TLC must find a history in which BOTH the cell
+\* graph and an in-place write expose the shared leaves, i.e. it must report NegWitness as violated
+NegWitness == ~(\E i, j \in 1..Len(hist) : "deep:shared-cells" \in Fails(hist[i]) /\ "mutation-leaks" \in Fails(hist[j]))
 TypeOK == /\ Len(nodes) = 1 + Cardinality({j \in 1..Len(hist) : hist[j].act \in Creating})
           /\ \A k \in 1..Len(nodes) : CellsOf(nodes[k]) \subseteq 1..Len(heap)
 =============================================================================
